@@ -715,6 +715,15 @@ fn do_check_subword_spaces(
         }
         Expr::Command { .. } => Ok(()),
         Expr::Subword { root_id: child, .. } => {
+            // The items of a subword itself are juxtaposed, not space-separated: two literals
+            // meeting there (e.g. `--with-<B>` once `<B> = never;` has been expanded) are fine.
+            // Only sequences nested below can carry spaces.
+            if let Expr::Sequence { children, .. } = &arena[*child] {
+                for child in children {
+                    do_check_subword_spaces(arena, *child, nonterms, nonterm_expn_trace, true)?;
+                }
+                return Ok(());
+            }
             do_check_subword_spaces(arena, *child, nonterms, nonterm_expn_trace, true)
         }
         Expr::Alternative { children, .. } => {
